@@ -32,7 +32,7 @@ var zzC10Consts = []int64{1, -1, 2, 3, -7, 10, 1<<31 - 1, 1 << 31, -(1 << 31), 1
 // operand orders), covering both sides of the int32 switch and results beyond 64 bits.
 //
 //verif:unwind 40
-//verif:config generic posix64 posix64-nommap
+//verif:config generic posix64
 //verif:configq generic posix64
 func zzH10_mul() {
 	B := zzParam("mul_bits", 40, 62)
@@ -95,7 +95,7 @@ func zzFloorDivRef(x, y int64) (q zzW, r zzW) {
 // unsigned division), both arms of the representation.
 //
 //verif:unwind 40
-//verif:config generic posix64 posix64-nommap
+//verif:config generic posix64
 //verif:configq generic posix64
 func zzH10_divmod() {
 	xv := zzI64("x")
@@ -156,7 +156,7 @@ func zzH10_binaryDivZero() {
 // H10.4: conversions out of Int are exact with correct ok flags; failed conversions leave the target untouched.
 //
 //verif:unwind 40
-//verif:config generic posix64 posix64-nommap
+//verif:config generic posix64
 //verif:configq generic
 func zzH10_conv() {
 	B := zzParam("conv_bits", 40, 70)
@@ -239,7 +239,7 @@ func zzH10_asint() {
 // Reference for negative big operands uses the 128-bit two's complement value.
 //
 //verif:unwind 40
-//verif:config generic posix64 posix64-nommap
+//verif:config generic posix64
 //verif:configq generic
 func zzH10_bitwise() {
 	B := zzParam("bitwise_bits", 36, 66)
